@@ -457,6 +457,23 @@ impl Check for C01Check {
             cx.stats.geoms.insert(format!("{}x{}", c, l));
             let big = c * l > 1000;
             for _ in 0..if big { 4 } else { 24 } {
+                // a state of the zoo (pending wrap on written and unwritten rows, headless halves of
+                // wide characters, sparse rows, regions, modes ...) and then a short tail of draws
+                // (combining marks, wide, mixed API strings) and API calls
+                if !big && rng.below(5) == 0 {
+                    let mut ops = gen::setup(&mut rng, c, l, &gen::Profile { wide: 10, pending_wrap: 35, ..Default::default() });
+                    for _ in 0..1 + rng.below(5) {
+                        ops.push(match rng.below(5) {
+                            0 => Op::Api(Call::Draw(rng.pick(&gen::COMBINING).to_string())),
+                            1 => Op::Api(Call::Draw(gen::mixed_api_string(&mut rng))),
+                            2 => Op::Api(Call::Draw(rng.pick(&gen::WIDE).to_string())),
+                            3 => Op::Feed(gen::text_run(&mut rng, 4)),
+                            _ => Op::Api(gen::api_call(&mut rng, c, l)),
+                        });
+                    }
+                    c01_case(cx, c, l, PK::Chars, &ops, "zoo-tail");
+                    continue;
+                }
                 match rng.below(7) {
                     0 => {
                         let units = 1 + rng.usize(if big { 30 } else { 80 });
